@@ -21,6 +21,7 @@ func checkC07(c *Ctx) {
 	c07BlockSelection(c)
 	c07ScopePushPop(c)
 	c07VarsEntry(c)
+	c07VisitRecurse(c)
 	c07CollectLoops(c)
 	c07WalkFlags(c)
 	c.NotCovered("that a reported traversal has the right steps; equality of diagnostics under a pruned scope")
@@ -2206,4 +2207,50 @@ func alwaysCalls(f, target *ssa.Function, depth int) bool {
 		return true
 	}
 	return walk(f.Blocks[0])
+}
+
+// visit.recurse: the spec-tree walkers of hcldec descend into the same-body children of every spec.
+func c07VisitRecurse(c *Ctx) {
+	c.Rule("visit.recurse: every visitor closure of hcldec that walks a spec tree by calling s.visitSameBodyChildren(itself) (ImpliedSchema, ChildBlockTypes, Variables, findLabelSpecs) makes that call on every path: wrappers such as DefaultSpec, ValidateSpec, TransformFuncSpec and RefineValueSpec are also attribute or block specs themselves, so a visitor that stops at 'a block spec is a leaf' loses the block specs they wrap — ChildBlockTypes then hides a block type from the dynamic-block variable walkers, Variables misses references")
+	n := 0
+	for _, fn := range c.P.pkgFuncs("hcldec") {
+		if fn.Parent() == nil || len(fn.Params) != 1 || !isNamed(fn.Params[0].Type(), modPath+"/hcldec", "Spec") {
+			continue
+		}
+		var site *ssa.Call
+		for _, b := range fn.Blocks {
+			for _, ins := range b.Instrs {
+				if call, ok := ins.(*ssa.Call); ok && call.Call.IsInvoke() && call.Call.Method.Name() == "visitSameBodyChildren" && call.Call.Value == ssa.Value(fn.Params[0]) {
+					site = call
+				}
+			}
+		}
+		if site == nil {
+			continue
+		}
+		n++
+		c.Sites++
+		c.Fn(FuncName(fn))
+		// every path from the entry to a return passes the call
+		seen := map[*ssa.BasicBlock]bool{}
+		var escapes func(b *ssa.BasicBlock) bool
+		escapes = func(b *ssa.BasicBlock) bool {
+			if b == site.Block() || seen[b] {
+				return false
+			}
+			seen[b] = true
+			if _, ok := b.Instrs[len(b.Instrs)-1].(*ssa.Return); ok {
+				return true
+			}
+			for _, su := range b.Succs {
+				if escapes(su) {
+					return true
+				}
+			}
+			return false
+		}
+		c.Check(!escapes(fn.Blocks[0]), "visit.recurse", FuncName(fn)+":recurse", site.Pos(), "descends on every path",
+			"the visitor returns on some path without visiting the same-body children of the spec: specs wrapped by that spec (a block spec inside DefaultSpec{Primary: ValidateSpec{…}}) are not seen")
+	}
+	c.Floor("visit.recurse visitors", n, 4, "ImpliedSchema, ChildBlockTypes, Variables, findLabelSpecs")
 }
